@@ -70,14 +70,39 @@ fn quiet_panics() {
     std::panic::set_hook(Box::new(|_| {}));
 }
 
+/// Last run index started by this worker; a watchdog ends the process if one
+/// run does not finish (only possible if the code under test deadlocks).
+static PROGRESS: std::sync::atomic::AtomicU64 = std::sync::atomic::AtomicU64::new(u64::MAX);
+
+fn watchdog() {
+    std::thread::spawn(|| {
+        use std::sync::atomic::Ordering::Relaxed;
+        let mut last = PROGRESS.load(Relaxed);
+        let mut since = Instant::now();
+        loop {
+            std::thread::sleep(std::time::Duration::from_secs(2));
+            let now = PROGRESS.load(Relaxed);
+            if now != last {
+                last = now;
+                since = Instant::now();
+            } else if now != u64::MAX && since.elapsed().as_secs() > 120 {
+                eprintln!("HARNESS ERROR: simulated run {now} made no progress for 120 s (the code under test blocks for good)");
+                std::process::exit(3);
+            }
+        }
+    });
+}
+
 fn worker(base: u64, first: u64, count: u64, known: &[String]) -> WorkerOut {
     quiet_panics();
+    watchdog();
     let mut out = WorkerOut::default();
     let mut traces = BTreeSet::new();
     let mut subj = BTreeSet::new();
     let mut units = BTreeSet::new();
     let mut lh: u64 = 0xcbf2_9ce4_8422_2325;
     for i in first..first + count {
+        PROGRESS.store(i, std::sync::atomic::Ordering::Relaxed);
         let plan = plan::generate(run_seed(base, i));
         let res = execute(&plan);
         out.runs += 1;
